@@ -47,6 +47,9 @@ func (p *Path) stub(fn *ssa.Function, args []Value) (Value, bool) {
 	if !ok {
 		r, ok = p.extCall(name, args)
 	}
+	if !ok {
+		r, ok = p.floatStub(name, args)
+	}
 	if ok {
 		noteStub(name)
 	}
@@ -860,6 +863,9 @@ func nativeUF(name string) func(args []string) (string, bool) {
 	}
 	if strings.HasPrefix(name, "ext:") {
 		return extNative(name[4:])
+	}
+	if f := floatNativeUF(name); f != nil {
+		return f
 	}
 	return nil
 }
